@@ -102,18 +102,23 @@ var hookLog []hookEv
 
 var errInvalidRule = errors.New("rejected by the driver's validity rule")
 
-// The driver's own Transform: V 6 -> 5, W "q" -> "R".
+// The driver's own Transform: V 6 -> 5 (5 is invalid), V 3 -> 2 and V 2 -> 1 (NOT idempotent: applying it
+// twice is visible), W "q" -> "R".
 const (
-	trVFrom, trVTo = 6, 5
 	trWFrom, trWTo = "q", "R"
 	invV           = 5
 	invW           = "x"
 )
 
+var trV = [][2]int{{6, 5}, {3, 2}, {2, 1}}
+
 func (r *Rec) Transform() {
 	hookLog = append(hookLog, hookEv{H: "T", Ptr: r})
-	if r.V == trVFrom {
-		r.V = trVTo
+	for _, t := range trV {
+		if r.V == t[0] {
+			r.V = t[1]
+			break
+		}
 	}
 	if r.W == trWFrom {
 		r.W = trWTo
